@@ -7,6 +7,7 @@ from .. import paths
 from ..core import FUNC, call_attr, calls_in, const, dotted, is_const, kwarg, norm, text, walk_local
 
 EXPLANATION = [
+    'C06.shared-state: no class of the anchored modules keeps per-instance state in an object shared by all instances (an empty mutable container or synchronisation object as class-level default that is read through self and not rebound in __init__, or as a dataclass field default); process-wide registries are listed by name.',
     'C06.lmp-pending: Controller.send_lmp_packet returns, on every path, a future created by that very call and registers it under (peer, opcode): a second request to the same peer can never be resolved by the answer to an earlier one.',
     'C06.pending-owner: a pending-procedure slot of the controller (pending_le_connection, ...) is cleared only in functions that read it first, i.e. by the code that concludes or cancels that very procedure.',
     'C06.adv-address: the address an advertiser announces (and against which connect requests are matched) is, with a one-level inlining of controller helpers, the controller public address or the random address configured for that very advertiser (controller-wide for legacy advertising, per set for extended advertising), selected by own_address_type; the per-set writer stores into the set named by the command.',
@@ -334,7 +335,13 @@ def lmp_pending(ctx):
     R.check(len(stores) == 1 and 'receiver_address' in norm(fn) and any(norm(t.slice) == 'packet.opcode' for n in stores for t in n.targets if isinstance(t, ast.Subscript)), rule, f'{CTRL}.send_lmp_packet | registered by peer and opcode', 'the future is registered under (receiver address, opcode)', 'the pending LMP future is not registered under (peer, opcode)', p.loc(fn))
 
 
+def shared_state_rule(ctx):
+    from ..shared_state import shared_state
+    shared_state(ctx, 'C06.shared-state', ['bumble.controller', 'bumble.link'])
+
+
 RULES = [
+    ('C06.shared-state', shared_state_rule),
     ('C06.lmp-pending', lmp_pending),
     ('C06.pending-owner', pending_owner),
     ('C06.addr-origin', addr_origin),
